@@ -16,6 +16,7 @@ import (
 	"verifharness/payload"
 	"verifharness/prog"
 	"verifharness/rig"
+	"verifharness/simnet"
 	"verifharness/runner"
 )
 
@@ -151,6 +152,66 @@ func finishRace(r *payload.SplitMix, cfg prog.Config) (all []*prog.Script, group
 		all = append(all, prog.GenClean(r, uint64(3+i), cfg))
 	}
 	return all, [][]*prog.Script{all}, payload.Pick(r, finishPoints)
+}
+
+// queuedCancel: RPC 1 is soft-cancelled while its cancel packet is held back by the transport, RPC 2
+// is issued meanwhile, waits for its turn and is cancelled while it waits; the transport lets go. RPC 3,
+// a clean one, comes afterwards: the two cancels were sent on other RPCs and must not decide how it ends.
+func queuedCancel(id string, seed uint64) runner.Result {
+	r := &payload.SplitMix{S: seed}
+	cfg := prog.GenConfig(r, false)
+	cfg.Client.SoftCancel, cfg.Server.SoftCancel = true, true
+	cfg.Desc = strings.Replace(cfg.Desc, "soft=false", "soft=true", 1)
+	cfg.Net.Cap = -1
+	first := &prog.Script{Tag: 1, Client: []prog.Act{{Op: 's', Size: r.Intn(200)}, {Op: 'r'}}, Handler: []prog.Act{{Op: 'R'}}}
+	second := prog.GenClean(r, 2, cfg)
+	third := prog.GenClean(r, 3, cfg)
+	x := prog.New(cfg, []*prog.Script{first, second, third})
+	defer x.Rig.Teardown()
+	op1 := rig.Go("rpc1", func() (interface{}, error) { x.RunClient(first); return nil, nil })
+	census.Quiesce(rig.Watchdog)
+	gate := x.Rig.Pair.A.GateNextWrite(simnet.When(r.Intn(2)))
+	x.Log(1).CancelRPC()
+	census.Quiesce(rig.Watchdog)
+	op2 := rig.Go("rpc2", func() (interface{}, error) { x.RunClient(second); return nil, nil })
+	census.Quiesce(rig.Watchdog)
+	waiting := !op2.Returned()
+	x.Log(2).CancelRPC()
+	census.Quiesce(rig.Watchdog)
+	gate.Release()
+	census.Quiesce(rig.Watchdog)
+	hist := fmt.Sprintf("%s | queued-cancel: rpc1 soft-cancelled with its cancel packet held by the transport, rpc2 cancelled while waiting for its turn (was waiting=%v), then %s", cfg.Desc, waiting, describe(third))
+	if !op1.Returned() || !op2.Returned() {
+		return runner.Inconcl(id, "a cancelled call of the workload never returned (C04 decides that): "+hist)
+	}
+	op3 := rig.Go("rpc3", func() (interface{}, error) { x.RunClient(third); return nil, nil })
+	st := rig.WaitAny(op3.Done())
+	_, snap := census.Quiesce(rig.Watchdog)
+	closed := rig.IsClosed(x.Rig.Conn.Closed())
+	if st == "watchdog" {
+		return runner.Inconcl(id, "watchdog: "+hist)
+	}
+	if closed {
+		return runner.Hold(id, hist+" (connection closed by the cancels)", false)
+	}
+	if !op3.Returned() {
+		return runner.Violation(id, "isolation:rpc-never-completes-after-cancels-of-other-rpcs", hist+"\nrpc3 is blocked at quiescence on a connection that is not closed\n"+census.Dump(census.InDRPC(snap)))
+	}
+	l := x.Log(3)
+	evs := l.Snapshot()
+	var fails []string
+	for _, e := range evs {
+		if e.Err != nil && !(e.Op == "recv" && rig.Cat(e.Err) == "eof") {
+			fails = append(fails, fmt.Sprintf("rpc 3 was aborted by neither side and the connection never closed, yet %c:%s failed: %s", e.Side, e.Op, rig.ErrStr(e.Err)))
+		}
+	}
+	fails = append(fails, completeness(l, evs)...)
+	if len(fails) > 0 {
+		return runner.Violation(id, "isolation:clean-rpc-disturbed-by-cancels-of-other-rpcs", hist+"\n"+strings.Join(fails, "\n"))
+	}
+	res := runner.Hold(id, hist, waiting)
+	res.Events = int64(len(evs))
+	return res
 }
 
 func scenario(id string, seed uint64, family string) runner.Result {
@@ -438,6 +499,11 @@ func gen(tier string, seed uint64) []runner.Scenario {
 	}
 	for i := 0; i < n/10; i++ {
 		i := i
+		id := fmt.Sprintf("queued-cancel/%d", i)
+		out = append(out, runner.Scenario{ID: id, Run: func() runner.Result { return queuedCancel(id, payload.Hash(seed, 0xC02D, uint64(i))) }})
+	}
+	for i := 0; i < n/10; i++ {
+		i := i
 		id := fmt.Sprintf("cancel-meets-finish/%d", i)
 		out = append(out, runner.Scenario{ID: id, Run: func() runner.Result { return scenario(id, payload.Hash(seed, 0xC02C, uint64(i)), "finish") }})
 	}
@@ -448,7 +514,7 @@ func main() {
 	runner.Main(runner.Check{
 		Property: "C02",
 		Level:    "exploration",
-		Rule:     "one case = one program of 3-12 RPCs (clean shapes and early-ending kinds at seeded positions, some handlers that keep sending after the client left) issued by 1-4 goroutines on one connection, in a seeded configuration cell, under one of: perturbed scheduling, the client goroutine of later RPCs parked at one of 6 internal points until everything earlier RPCs left behind has been delivered, or plain; plus the late-first-receive family (an RPC whose first receive happens only after it has finished on the wire and the next RPC of another goroutine sits at an internal point with frames written but not flushed) and the abandoned-after-metadata family (an RPC with metadata cancelled between its metadata write and its invoke write, followed by RPCs with their own metadata) and the cancel-meets-finish family (an RPC that ends normally and is cancelled while its completion sits at one of 6 internal points, followed by an RPC that cancels itself and by clean RPCs: what the first left behind must not decide how the later ones turn out). Every delivered message carries (rpc tag, direction, sequence, checksum); handler errors carry their rpc number. Non-trivial: all cases. Distinct: by configuration and program text; evidence also counts distinct point-hit sequences.",
+		Rule:     "one case = one program of 3-12 RPCs (clean shapes and early-ending kinds at seeded positions, some handlers that keep sending after the client left) issued by 1-4 goroutines on one connection, in a seeded configuration cell, under one of: perturbed scheduling, the client goroutine of later RPCs parked at one of 6 internal points until everything earlier RPCs left behind has been delivered, or plain; plus the late-first-receive family (an RPC whose first receive happens only after it has finished on the wire and the next RPC of another goroutine sits at an internal point with frames written but not flushed) and the abandoned-after-metadata family (an RPC with metadata cancelled between its metadata write and its invoke write, followed by RPCs with their own metadata) and the cancel-meets-finish family (an RPC that ends normally and is cancelled while its completion sits at one of 6 internal points, followed by an RPC that cancels itself and by clean RPCs: what the first left behind must not decide how the later ones turn out) and the queued-cancel family (RPC 1 soft-cancelled with its cancel packet held back by the transport, RPC 2 cancelled while waiting for its turn, then a clean RPC 3). Every delivered message carries (rpc tag, direction, sequence, checksum); handler errors carry their rpc number. Non-trivial: all cases. Distinct: by configuration and program text; evidence also counts distinct point-hit sequences.",
 		Assumptions: []string{
 			"a clean RPC must succeed completely only if the connection never reported closed during the program (a hard cancel closes it legitimately)",
 			"a call that never returns makes the case inconclusive here (C04/C05/C06 decide progress)",
